@@ -910,6 +910,74 @@ func ruleRunningEnd(c *Ctx, rule string) {
 		}
 	}
 	if n == 0 {
+		// the running end kept in a local of a gathering loop: for i++; i < len(ff) && ff[i].Start() <= e; i++ { if fe := ...; fe > e { e = fe } }
+		for _, fn := range privateReach(root) {
+			for _, l := range naturalLoops(fn) {
+				for _, ins := range l.head.Instrs {
+					e, ok := ins.(*ssa.Phi)
+					if !ok || !isIntegral(e.Type()) {
+						continue
+					}
+					// updated as a running maximum on the way round
+					running := false
+					for _, leaf := range headerLeaves(l, e) {
+						if x, ok := leaf.v.(*ssa.Call); ok {
+							if nm := calleeName(&x.Call); nm == "max" || builtinCall(x, "max") != nil {
+								for _, a := range x.Call.Args {
+									if a == ssa.Value(e) {
+										running = true
+									}
+								}
+							}
+						}
+						{
+							if leaf.v == ssa.Value(e) || leaf.from == nil {
+								continue
+							}
+							for _, bf := range branchesAt(leaf.from) {
+								if (bf.cond.X == leaf.v && bf.cond.Y == ssa.Value(e)) || (bf.cond.Y == leaf.v && bf.cond.X == ssa.Value(e)) {
+									running = true
+								}
+							}
+							for _, bf := range factsOnEdge(leaf.from, leaf.to) {
+								if (bf.cond.X == leaf.v && bf.cond.Y == ssa.Value(e)) || (bf.cond.Y == leaf.v && bf.cond.X == ssa.Value(e)) {
+									running = true
+								}
+							}
+						}
+					}
+					if !running {
+						continue
+					}
+					// and a test that leaves the loop reads it
+					reads := false
+					for b := range l.body {
+						ifi, ok := b.Instrs[len(b.Instrs)-1].(*ssa.If)
+						if !ok {
+							continue
+						}
+						bo, ok := ifi.Cond.(*ssa.BinOp)
+						if !ok || (bo.X != ssa.Value(e) && bo.Y != ssa.Value(e)) {
+							continue
+						}
+						for _, sc := range b.Succs {
+							if !l.body[sc] {
+								reads = true
+							}
+						}
+					}
+					n++
+					key := fmt.Sprintf("sequtils.Stitch/merge-test-reads-running-end#%d", n)
+					if reads {
+						c.ok(rule, key, e.Pos(), "the loop that gathers a run of overlapping features stops on a comparison with the running end it keeps")
+					} else {
+						c.bad(rule, key, e.Pos(), "a running end is kept while features are gathered, but the test that ends the run never reads it: a feature nested in a longer one resets the comparison, so a later feature still inside the longer one opens a new span and its letters are stitched twice")
+					}
+				}
+			}
+		}
+	}
+	if n == 0 {
 		c.und(rule, "sequtils.Stitch/merge-test-reads-running-end", root.Pos(), "no running-end update (x.e = max(x.e, ...)) found")
 	}
 }
